@@ -50,6 +50,10 @@ type job struct {
 	KeepLits bool   `json:"keep_lits,omitempty"`
 	// iso: Text is module A, Text2 module B (see isolation.go)
 	Text2 string `json:"text2,omitempty"`
+	// edit: Text is parsed, then the edits of a MetadataEdit.tla history are replayed (see edit.go)
+	Layout string     `json:"layout,omitempty"`
+	N      int        `json:"n,omitempty"`
+	Edits  []editStep `json:"edits,omitempty"`
 }
 
 // jobResult is what the real code did.
@@ -76,6 +80,12 @@ type jobResult struct {
 	FreshDiffers string   `json:"fresh_differs,omitempty"`
 	Hoisted      int      `json:"hoisted,omitempty"`
 	IsoSkipped   string   `json:"iso_skipped,omitempty"`
+	// edit
+	EditOps   [][]int64 `json:"edit_ops,omitempty"`
+	EditOps2  [][]int64 `json:"edit_ops2,omitempty"`
+	EditFrame string    `json:"edit_frame,omitempty"`
+	EditPanic string    `json:"edit_panic,omitempty"`
+	Layout    string    `json:"edit_slot,omitempty"` // editall: Type.Field of the edited operand list
 	// set by the parent when the child died while running this job
 	Crashed string `json:"crashed,omitempty"`
 	Phase   string `json:"phase,omitempty"`
@@ -162,6 +172,10 @@ func evalJob(j job, phase func(string)) jobResult {
 		}
 	case "iso":
 		evalIso(j, &r, phase)
+	case "edit":
+		evalEdit(j, &r, phase)
+	case "editall":
+		evalEditAll(j, &r, phase)
 	case "text":
 		var m *ir.Module
 		var perr error
